@@ -825,6 +825,18 @@ def shape_cfg(shape, variant=0):
     raise ValueError(shape)
 
 
+def _model_quiet(s):
+    """Projection of a model state onto `no task, no thread` (TaskNames / ThreadNames of PcLife)."""
+    live = ("ready", "run", "cancelled", "cancelled0")
+    return not (any(m in ("waiting", "woken") for m in s["mon"])
+                or any(c["consent"] in ("run", "cancelled") or c["check"] in ("run", "cancelled") for c in s["conn"])
+                or any(d["pump"] in live for d in s["dtls"])
+                or any(c["lbl"] not in ("idle", "done") for c in s["co"])
+                or s["snd"]["rtp"] in live or s["snd"]["rtcp"] in live or s["rcv"]["rtcp"] in live
+                or s["cl"]["auto"]["lbl"] not in ("idle", "done")
+                or s["rcv"]["dec"] == "run")
+
+
 def point_from_behaviour(beh, variant):
     """Translate a TLC behaviour of PcLife into a scenario for the real pair:
     where were the model's coroutines suspended when close() was called?"""
@@ -899,7 +911,7 @@ def point_from_behaviour(beh, variant):
     expect = {"sig": last["sig"], "ice": last["pcIce"], "conn": last["pcConn"],
               "chan_closed": last["chan"] in ("none", "closed"),
               "track_ok": not (last["trk"]["st"] == "live" and not last["trk"]["ended"]),
-              "settled": all(c["lbl"] in ("idle", "done") for c in last["cl"].values())}
+              "nothing_running": _model_quiet(last)}
     return {"cfg": shape_cfg(shape, variant), "trig": trig, "mode": mode, "side": side,
             "gap_ms": [0, 3, 40][variant % 3], "settle_ms": 20, "src": "tlc",
             "model": {"shape": shape, "role": cfg["role"], "co": labels, "sl": pre["sl"], "sr": pre["sr"],
@@ -1116,7 +1128,7 @@ def compare_with_model(sc, res):
     got = {"sig": fin["sig"], "ice": fin["ice"], "conn": fin["conn"],
            "chan_closed": all(c == "closed" for c in fin["channels"]),
            "track_ok": all(t == "ended" for t in fin["tracks"]),
-           "settled": not fin["tasks"] and not fin["threads"]}
+           "nothing_running": not fin["tasks"] and not fin["threads"]}
     diff = [k for k in exp if k in got and exp[k] != got[k]]
     return diff
 
@@ -1361,6 +1373,13 @@ def run():
             "tlc_point_labels": ["%s/%s" % lm for lm in labels_seen][:60],
             "lockstep_points": agree["points"], "lockstep_agree": agree["agree"], "lockstep_diffs": agree["diffs"],
             "traces_validated_against_impl": len(good),
+            "evaluations": len(good) + reruns,
+            "distinct_nontrivial": len({json.dumps([x["sc"]["cfg"], x["info"].get("fired_at"), x["sc"]["mode"], x["sc"]["side"]],
+                                                   sort_keys=True) for x in good
+                                        if x["info"].get("fired_at") not in (None, "fallback", "script:end.enter")}),
+            "rule": "one execution = one real pair of peer connections with close() injected at one point; distinct = "
+                    "(configuration, point that actually fired, mode, side); non-trivial = the point fired before the end of "
+                    "the scripted session (not the fallback close at the end)",
             "trace_events_validated": sum(len(x["steps"]) for x in good),
             "executions_by_source": {k: sum(1 for x in good if x["sc"].get("src") == k)
                                      for k in ("reference", "tlc", "label", "script", "iter", "delay")},
